@@ -49,6 +49,13 @@ CHECKS = {
    text="Generated messages and byte strings against an independent reference encoder/decoder; versions, status codes and preamble bytes enumerated completely. Exploration: it samples the message space, it does not prove the codec.",
    note="Trusted: the hand-written reference codec (refmodel::wire) as layout authority, in-memory AsyncRead/AsyncWrite standing in for QUIC streams.",
    design="§4 C07"),
+ "C08": dict(
+   engine="simnet+proptest + child-process racer",
+   level="fault_enumeration",
+   technique="property-based testing: generated mixes of in-flight work at the shutdown instant on the simulated network (virtual-time bounds, resource and event oracles) with the runtime dropped at enumerated packet-event times of a reference run; plus a schedule-fuzzing racer that pre-empts one worker thread at generated poll points (tracing subscriber) while a multi-thread runtime is torn down in child processes",
+   text="Crash points are enumerated at packet-event granularity per generated scenario (virtual time); multi-thread teardown races are sampled by the racer, which owns the pre-emption point but not the whole schedule. Four teardown defects found by it were repaired by fix: commits and would be reported again.",
+   note="Trusted: fabric + paused clock for part A. Racer: real threads and real loopback UDP, statistical replay (10 runs), a slow child is inconclusive; the only hook it reads is the accept-None counter (H3).",
+   design="§4 C08, §3.5"),
  "C09": dict(
    engine="simnet+proptest",
    technique="property-based testing on a simulated network: generated histories of dials, disconnects, graceful restarts, crashes and (one-directional) partitions; invariant over sampled views (bounded one-sided period), mutual views and RPC reachability after a fault-free tail, and the disconnect contract",
@@ -160,7 +167,7 @@ def main():
             {"name": "libfuzzer", "path": "fuzz", "serves_properties": [], "kind_free_text": "cargo-fuzz targets sharing the harness oracles (thorough tiers)"},
         ],
         "checks": checks,
-        "notes": "All checks: exit 0 held / 1 VIOLATION / 2 inconclusive (build failure, simulator livelock, generator-health gate). Known findings are listed in known_findings.json and printed as KNOWN-FINDING lines.",
+        "notes": "Fix commits in /repo (see known_findings.json, status fixed): ed9e037, 4652d7a, d4b9ef4, 1928b31. All checks: exit 0 held / 1 VIOLATION / 2 inconclusive (build failure, simulator livelock, generator-health gate). Known findings are listed in known_findings.json and printed as KNOWN-FINDING lines.",
         "not_applicable": [{"property_id": p, "reason": PENDING_REASON} for p in ALL if p not in CHECKS],
     }
     json.dump(manifest, open("/verif/MANIFEST.json", "w"), indent=1)
